@@ -3,6 +3,7 @@ spec, stepped one real Environment.step() at a time (E1) or driven from inside t
 real System.simulate() (E2).  See DESIGN.md sections 2-4.
 '''
 import math
+import random
 
 from . import Violation, HarnessError
 from . import canon, globalstate
@@ -391,7 +392,7 @@ class OpAction:
 
 class LineWorld:
     _canon_skip = ('spec', 'facts', 'last_tie_size', 'budget', 'mode', 'ops', 'horizon',
-                   'op_limits', 'positions', '_saved', '_gsaved', 'script', 'dispatched', '_prev_hub')
+                   'op_limits', 'positions', '_saved', '_gsaved', 'script', 'dispatched', '_prev_hub', '_prev_rr', 'wcount')
 
     def __init__(self, spec, monitors=(), mode='e1'):
         self.spec = spec
@@ -439,9 +440,18 @@ class LineWorld:
         d.pop('_saved', None)
         d.pop('_gsaved', None)
         d.pop('_prev_hub', None)
+        d.pop('_prev_rr', None)
         return d
 
     # ------------------------------------------------------------------ globals
+    # tie-break weights: see CompWorld._next_weight (same ownership of the random module's only use)
+    wcount = 0
+
+    def _next_weight(self):
+        self.wcount += 1
+        w = self.wcount * 1e-9
+        return w if self.spec.get('weights', 'inc') == 'inc' else 1.0 - w
+
     def _enter(self):
         if self.mode == 'e2':       # globals are owned by run_e2 for the whole simulate()
             return
@@ -451,6 +461,8 @@ class LineWorld:
         self._gsaved = globalstate.enter(self.gvals)
         self._prev_hub = _CURRENT_HUB[0]
         _CURRENT_HUB[0] = self.hub
+        self._prev_rr = random.random
+        random.random = self._next_weight
 
     def _leave(self):
         if self.mode == 'e2':
@@ -458,6 +470,8 @@ class LineWorld:
             return
         _CURRENT_HUB[0] = self._prev_hub
         self._prev_hub = None
+        random.random = self._prev_rr
+        self._prev_rr = None
         self.id_counter = Asset._id_counter
         Asset._id_counter, System._instance = self._saved
         self._saved = None
@@ -1036,6 +1050,8 @@ def run_e2(spec, monitor_factory, path, prefix_ok=False, trace=False, lenient=Fa
     System._instance = w.system
     gs = globalstate.enter(w.gvals)
     _CURRENT_HUB[0] = w.hub
+    saved_rr = random.random
+    random.random = w._next_weight
     w.env.step = shim
     home = old_home = None
     if trace:
@@ -1096,6 +1112,7 @@ def run_e2(spec, monitor_factory, path, prefix_ok=False, trace=False, lenient=Fa
         Asset._id_counter, System._instance = saved
         globalstate.leave(w.gvals, gs)
         _CURRENT_HUB[0] = None
+        random.random = saved_rr
         if trace:
             import os
             import shutil
